@@ -22,3 +22,17 @@ class RecCb:
 
     def start(self, data):
         self.log.append(("start", data))
+
+
+def set_attr(obj, name, value):
+    """setattr as a function returning the object, so that both sides can be compared."""
+    setattr(obj, name, value)
+    return obj
+
+
+def get_attrs(obj, names):
+    """the listed attributes, as a list"""
+    out = []
+    for n in names:
+        out.append(getattr(obj, n))
+    return out
